@@ -33,6 +33,16 @@ CLAIMS = {
         "(a True decision there is UNRESOLVED). Trusted: onnx_ir.DataType member facts, the frozen IEEE parameter table, the restricted evaluator (unsupported syntax -> UNRESOLVED).",
         "DESIGN.md §3 C17",
     ),
+    "C13": (
+        "typestate/pairing analysis of context managers (mutate-inside-try, LIFO restore, yield placement) + who-may-write lint on third-party namespaces with import-time classification + scoped-activation check over resolved call sites",
+        "Every @contextmanager and save/restore function of the package that mutates host state (setattr on patch targets, jax.config, the refcounted patch table, the re-entrancy ContextVar) "
+        "must mutate inside the try whose finally restores (or in the single statement right before it), yield inside it and undo loops in reverse; every write to a jax/flax/equinox/numpy/... "
+        "module or class attribute must be paired in the same function or run only while `import jax2onnx` executes (computed from the top-level import closure); package context managers "
+        "may only be entered through with/ExitStack. This covers every unwinding point of every patch stack, which no test exercises.",
+        "Not decided: pollution of jax.jit trace caches, mutation of user modules by library code, behavioural probes. Assumes objects named self/cls/ctx/owner/*builder are converter-owned. "
+        "Five genuine unscoped writes (jnp.cumsum, *_p attributes) are recorded in known_findings.json; the apply_monkey_patches leak was repaired (fix commit de6b809).",
+        "DESIGN.md §3 C13",
+    ),
 }
 
 NOT_APPLICABLE = {
